@@ -113,6 +113,23 @@ REJECTED = [
     ("two_results_first_wrong", [([], star(USER)), ERR]),
 ]
 
+def random_results(rng):
+    """a random result list over the whole field grammar (0..5 fields, all named or all unnamed, accepted and
+    refused types in any position).  Multi-name fields and top-level arrays are left out: those are the input
+    classes of the open findings K_rest_multi_name_result / K_rest_array_result."""
+    resp_like = [RESP[1], ("sel", "http", "Response"), star(("sel", "http", "Request")), star(USER)]
+    err_like = [ERR[1], I("MyErr"), star(I("error")), STRING]
+    first = BASE_RESULTS + MORE_RESULTS + [USER, INT, ANY, TIME, ANON, EMPTY_IFACE, ("other", "*ast.FuncType", "func() int"),
+                                            ("other", "*ast.ChanType", "chan int"), ("other", "*ast.IndexExpr", "Box[int]")]
+    n = rng.choice([0, 1, 2, 2, 2, 3, 3, 3, 3, 4, 5])
+    types = [rng.choice(first + resp_like + err_like) for _ in range(n)]
+    if n >= 2 and rng.random() < 0.7:
+        types[-1] = ERR[1] if rng.random() < 0.85 else rng.choice(err_like)
+        types[-2] = RESP[1] if rng.random() < 0.85 else rng.choice(resp_like)
+    names = rng.sample(["a", "b", "r", "res", "resp", "e", "err", "u"], n) if rng.random() < 0.25 else None
+    return [([names[i]] if names else [], t) for i, t in enumerate(types)]
+
+
 VERBS = ["Get", "Post", "Put", "Patch", "Delete"]
 BODY_VERBS = ("Post", "Put", "Patch")
 
